@@ -12,5 +12,6 @@ for f in r.failures:
     print('FAIL', f['obligation'], f['props'])
     if '-v' in sys.argv: print(f['verifier_output'])
 print('retries', r.log.get('solver_budget_retries'))
+if r.log.get('rewrites_not_applicable') or r.log.get('loops_not_present'): print('NOT APPLIED', r.log.get('rewrites_not_applicable'), r.log.get('loops_not_present'))
 print('canary', {k: v for k, v in r.canary.items() if not v})
 print('kept in', keep)
